@@ -412,6 +412,9 @@ fn c03_labels(c: &ProgCase) -> Vec<String> {
     for it in &c.items {
         l.push(format!("c03/item/{}/{}/depth{}", it.kind_name(), if it.annotated { "annotated" } else { "decoy" }, it.mod_path.len()));
     }
+    if c.items.iter().enumerate().any(|(i, a)| c.items[..i].iter().any(|b| b.name == a.name)) {
+        l.push("c03/twin-identifiers-in-different-modules".into());
+    }
     for (_, vi, fs, _, _) in containers(&c.items) {
         for f in fs {
             if f.skipped() {
@@ -425,7 +428,26 @@ fn c03_labels(c: &ProgCase) -> Vec<String> {
     l
 }
 /// consts cannot be generated by Kotlin/Swift (documented panic, C07) - keep them to the back ends that have them
-fn c03_post(items: Vec<Item>) -> Vec<Item> {
+fn c03_post(mut items: Vec<Item>) -> Vec<Item> {
+    // "twins": two annotated structs in different modules that share their Rust identifier and are told apart on the
+    // wire by serde(rename) - both must be generated (v1::Settings -> SettingsOne, v2::Settings -> SettingsTwo)
+    let plain = |it: &Item| it.annotated && it.serialized_as.is_none() && it.generics.is_empty() && matches!(it.kind, Kind::Struct { shape: Shape::Named(_), .. });
+    let idx: Vec<usize> = (0..items.len()).filter(|&i| plain(&items[i])).collect();
+    'find: for (n, &a) in idx.iter().enumerate() {
+        for &b in &idx[n + 1..] {
+            if items[a].mod_path != items[b].mod_path && items[a].layout % 3 == 0 {
+                let name = items[a].name.clone();
+                items[b].name = name.clone();
+                if items[a].serde_rename.is_none() {
+                    items[a].serde_rename = Some(format!("{name}One"));
+                }
+                if items[b].serde_rename.is_none() || items[b].serde_rename == items[a].serde_rename {
+                    items[b].serde_rename = Some(format!("{name}Two"));
+                }
+                break 'find;
+            }
+        }
+    }
     items
 }
 pub fn c03() -> FactCheck {
@@ -891,6 +913,15 @@ pub fn run_check(run: &Run, fc: &FactCheck, rule: &str, assumptions: &[&str], qu
     }
     replay_regress(run, fc);
     search(run, fc, run.tier.pick(quick, thorough));
+    // the same oracle on output produced by the real binary
+    if crate::cli::bin_available() {
+        let via = crate::factcheck::ViaCli::new(fc);
+        replay_regress(run, &via);
+        search(run, &via, run.tier.pick((quick / 12).max(150), (thorough / 25).max(1500)));
+        run.assume("a sub-family of the cases is generated by the real typeshare binary (single-file mode, settings through -c typeshare.toml) and judged by the same oracle");
+    } else {
+        run.extra("cli_family", serde_json::json!("not run: typeshare binary not built"));
+    }
     // coverage floor: the observers must have read the output in the vast majority of cases
     let mut observed = 0;
     let mut unobs = 0;
